@@ -100,6 +100,10 @@ def conv_case(spec, tmpdir):
     except ValueError as e:
         res['info'].append('skipped:' + str(e)[:40]); return res
     op = spec['op']
+    # hypothesis of the section-order theorems: the keywords up to SHORT are in reference order in the section list
+    rank = {k: i for i, k in enumerate(M.SECTIONS)}
+    low = [rank[k] for k in dat._sections if k in rank and rank[k] <= rank['SHORT']]
+    res['info'].append('sections-sorted-upto-SHORT:%s' % (low == sorted(set(low))))
     type_before = dat.type
     dirn = direction(spec, type_before)
     res['info'] += ['dir:' + dirn, 'prep:' + spec['prep'], 'op:' + op['kind']]
@@ -172,6 +176,12 @@ def conv_case(spec, tmpdir):
             elif 0 not in ks and not trig: fail(site + ':conductivity-rescaled-unasked', '%s %r -> %r with MOP(10)=%d MOP(23)=%d' % (rt.name, c0, rt.conductivity, opts0[10], opts0[23]), 'unchanged')
             elif opts0[10] == 2 and rt.porosity and 0 in ks and len(ks) == 1:
                 fail(site + ':mulkom-conductivity-not-rescaled', '%s %r' % (rt.name, rt.conductivity), 'MOP(10)=2: conductivity *= (1 - porosity)')
+        # the documented MULKOM compatibility rescaling: MOP(23) = 1 on an AUTOUGH2 (not 2.x) or MULKOM model
+        mulkom = opts0[23] == 1 and ((sim0.startswith('AUTOUGH2') and not sim0.startswith('AUTOUGH2.2')) or sim0.startswith('MULKOM'))
+        if mulkom and opts0[10] != 2 and any(rt.porosity and rt.conductivity == c0 for rt, c0, _ in rocks0):
+            fail('to_tough2:mulkom-compat-conductivity-not-rescaled', 'simulator %r MOP(23)=1: conductivities unchanged %r' % (sim0, [rt.conductivity for rt, _, _ in rocks0]),
+                 'the documented rescaling conductivity *= (1 - porosity) (convert_AUTOUGH2_parameters_to_TOUGH2 applies it when called on the same model)')
+        if mulkom: res['info'].append('mulkom-compat')
         if [id(rt) for rt in dat.grid.rocktypelist] != [id(r[0]) for r in rocks0]: fail(site + ':rocktype-list-changed', '', 'same rock types')
         # history requests
         hb = so0['block'] if 'block' in so0 else hist0[0]
@@ -306,7 +316,9 @@ def export_case(spec):
     except ValueError as e:
         res['info'].append('skipped:' + str(e)[:40]); return res
     out = M.run_export(dat, geo, kw)
-    res['lines'].append(('export', '\t'.join(['exp', '0', M.hx(''), M.hx('')] + base), ' | '.join(out[k] for k in ('eos', 'rocks', 'srcs'))))
+    res['lines'].append(('export', '\t'.join(['exp', '0', M.hx(''), M.hx('')] + base),
+                         {'eos': out['eos'], 'rocks': out['rocks'], 'srcs': out['srcs'], 'init': out['init'], 'bdy': out['bdy']}))
+    res['lines'].append(('block-order', '\t'.join(M.geom_wire(geo)), 'OK\t' + ','.join(M.hx(n) for n in geo.block_name_list)))
     res['info'] += ['route:' + spec['route'], 'json:' + ('ok' if out['full'] else 'raised'), 'atm:%d' % spec['geo']['atmos_type'],
                     'order:%s' % spec['geo']['block_order']]
     # ---- the export as a whole: a boundary block none of whose neighbours is an interior block has no faces
@@ -354,6 +366,40 @@ def export_case(spec):
         known = set(range(-natm, len(geo.block_name_list) - natm))
         if set(where) - known: fail('rocks_json:unknown-cell', repr(sorted(set(where) - known)[:5]), 'cell lists hold block indices of the geometry')
         res['info'].append('nonboundary:%d' % min(nb, 9))
+    # ---- block order: atmosphere blocks first, then the underground blocks by layer and column (dmplex: 8-node blocks, then 6-node blocks)
+    names = geo.block_name_list
+    top = geo.layerlist[0].name
+    und = [(geo.block_name(l.name, c.name), c.num_nodes) for l in geo.layerlist[1:] for c in geo.columnlist if c.surface > l.bottom]
+    want_und = [n for n, k in und] if geo.block_order != 'dmplex' else [n for n, k in und if k == 4] + [n for n, k in und if k == 3]
+    if any(geo.layer_name(n) != top for n in names[:natm]) or names[natm:] != want_und or any(geo.block_name_index[n] != i for i, n in enumerate(names)):
+        fail('json:block-order', 'block_name_list %r' % names[:12], '%d atmosphere blocks, then %r' % (natm, want_und[:12]))
+    res['info'].append('order-6node:%d' % min(3, sum(1 for n, k in und if k == 3)))
+    # ---- initial conditions: one entry per underground block, in geometry order
+    def want_value(nm):
+        if nm in dat.incon: return M.value_id(dat.incon[nm][1][0])
+        rk = dat.grid.block[nm].rocktype.name
+        return M.value_id(dat.indom[rk][0]) if rk in dat.indom else 0
+    if isinstance(out['init'], str) and out['init'].startswith('OK') and all(n in dat.grid.block for n in names):
+        got = [int(v) for v in out['init'][3:].split(',')] if out['init'][3:] else []
+        want = [want_value(n) for n in names[natm:]]
+        if got != want: fail('initial_json:value-per-cell', repr(got[:20]), 'by cell index: INCON entry, else INDOM entry of the rock type, else default: %r' % want[:20])
+        res['info'].append('initial:%s' % ('uniform' if len(set(want)) <= 1 else 'varied'))
+    # ---- boundaries: each boundary block has one face per connection to an interior block, with that block's cell index
+    if isinstance(out['bdy'], list):
+        inner = lambda b: 0. < b.volume < spec['atmos_volume']
+        index = {n: i for i, n in enumerate(names)}
+        want, ok = [], True
+        for b in dat.grid.blocklist:
+            if inner(b): continue
+            for cn in b.connection_name:
+                o = [n for n in cn]; o.remove(b.name)
+                ob = dat.grid.block[o[0]]
+                if inner(ob):
+                    if ob.name not in index: ok = False; break
+                    want.append((want_value(b.name) if (dat.incon or dat.indom) else 0, index[ob.name] - natm))
+        if ok and sorted(want) != out['bdy']:
+            fail('boundaries_json:faces', 'faces (boundary value, interior cell) %r' % out['bdy'][:12], 'one face per connection boundary block - interior block: %r' % sorted(want)[:12])
+        res['info'].append('boundary-faces:%d' % min(9, len(want)))
     # ---- sources
     if out['srcs'].startswith('OK'):
         body = out['srcs'][3:]
@@ -426,12 +472,22 @@ def absorb(ctx, exe, kind, specs, results, label=''):
         out = vf.run_driver(exe, lines, shards=NSHARD if len(lines) > 400 else 1)
         per = Counter()
         for (name, spec, impl), case, model in zip(meta, lines, out):
-            if name == 'export':        # one driver line, three compared pieces
-                mp, ip = model.split(' | '), impl.split(' | ')
-                for k, part in enumerate(('export-eos', 'export-rocks', 'export-srcs')):
-                    per[part] += 1
-                    a, b = (mp[k] if k < len(mp) else model), (ip[k] if k < len(ip) else impl)
-                    if a != b: ctx.disagreement(part, {'spec': spec, 'difference': 'model %s | implementation %s' % (a[:600], b[:600])}, a[:2000], b[:2000])
+            if name == 'export':        # one driver line, five compared pieces
+                mp = model.split(' | ')
+                if len(mp) != 5: mp = [model] * 5
+                for k, key in enumerate(('eos', 'rocks', 'srcs', 'init', 'bdy')):
+                    a, b = mp[k], impl[key]
+                    if b is None: continue                       # the implementation raised for a reason outside the bookkeeping
+                    if key == 'bdy':                             # canonical: sorted (boundary value, interior cell) pairs
+                        if a.startswith('OK'):
+                            pairs = []
+                            for e in (a[3:].split(';') if a[3:] else []):
+                                nm, v, cells = e.split(':')
+                                pairs += [(int(v), int(c)) for c in cells.split(',')]
+                            a = repr(sorted(pairs))
+                        b = repr(b) if isinstance(b, list) else b
+                    per['export-' + key] += 1
+                    if a != b: ctx.disagreement('export-' + key, {'spec': spec, 'difference': 'model %s | implementation %s' % (a[:600], b[:600])}, a[:2000], b[:2000])
                 continue
             per[name] += 1
             if model != impl:
